@@ -131,6 +131,25 @@ Theorem C06_sound_doc_entries :
 Proof. exact binding_sound_entries. Qed.
 Print Assumptions C06_sound_doc_entries.
 
+(* The same with the entries' raw values: [enc] is the value encoding (arbitrary; for
+   strings it goes through HashBytes, whose zero padding makes "x" and "x\000" encode
+   alike: known finding D29).  Equal entry sets as (path key, value) pairs, or two
+   different values with one encoding, or a Poseidon collision. *)
+Theorem C06_sound_doc_entries_values :
+  forall (V : Type) (V_eq_dec : forall x y : V, {x = y} + {x <> y}) (enc : V -> Z)
+         (hl hm : Z -> Z -> Z) (maxlev : nat)
+         (O : oracles) (c c' : cred) (cl : claim) (mz mz' : mzview)
+         (raw raw' : list (Z * V)) (t t' : tree),
+  verify_binding O c cl = Ok tt -> verify_binding O c' cl = Ok tt ->
+  c_mz c = Some mz -> c_mz c' = Some mz' ->
+  get_merklized cl <> mrk_none ->
+  add_all maxlev (map (fun kx => (fst kx, enc (snd kx))) raw) = Ok t ->
+  add_all maxlev (map (fun kx => (fst kx, enc (snd kx))) raw') = Ok t' ->
+  root hl hm t = m_root mz -> root hl hm t' = m_root mz' ->
+  Permutation raw raw' \/ (exists x y : V, x <> y /\ enc x = enc y) \/ Collision hl hm.
+Proof. exact binding_sound_entries_values. Qed.
+Print Assumptions C06_sound_doc_entries_values.
+
 (* VerifyProof runs the binding check before any proof-type specific step, for
    every proof type (supported or not): acceptance implies the binding check
    passed on the selected proof's claim ... *)
